@@ -28,6 +28,7 @@ func genNDSpoof(prop string, seed uint64, tier string) Scenario {
 	c.HostGUA = r.chance(1, 2)
 	c.ICMP6 = true
 	c.Concurrent = true
+	c.ReuseBuf = r.chance(1, 2)
 	c.Debug = r.chance(1, 4)
 	c.PreemptN = r.pick(1, 1, 4, 16)
 	c.HintMax = r.pick(0, 10, 100)
@@ -184,6 +185,28 @@ func runNDSpoof(e *exec) {
 	}
 	// RAs per router, as the reference decoder reads them (appended by the RA actor)
 	rasSent := map[netip.Addr][]string{}
+	checkRouter := func(rip netip.Addr, mustExist bool) {
+		got := w.ICMP6.FindRouter(rip)
+		if got.Addr.IP.IsValid() {
+			view := routerViewLib(got)
+			found := false
+			for _, v := range rasSent[rip] {
+				if v == view {
+					found = true
+				}
+			}
+			if !found {
+				key := "learned-router-differs-from-every-advertisement"
+				if len(rasSent[rip]) == 1 {
+					key = "learned-router-differs-from-its-only-advertisement"
+				}
+				e.violate("C14.router", key, fmt.Sprintf("FindRouter(%s) = %s; advertisements so far (reference decoder): %s", rip, view, strings.Join(rasSent[rip], " || ")))
+			}
+			e.probe("router_checked")
+		} else if mustExist && e.sc.Cfg.StallDen == 0 { // a stalled loop may not have processed it yet
+			e.violate("C14.router", "first-advertisement-not-learned", fmt.Sprintf("FindRouter(%s) is empty after the first router advertisement", rip))
+		}
+	}
 	var raSeqs []int64
 	c := newConc(e, nil)
 	body := func(a *actor, i int, o Op) {
@@ -206,25 +229,16 @@ func runNDSpoof(e *exec) {
 			raSeqs = append(raSeqs, a.in[len(a.in)-1].Seq)
 			rasSent[rip] = append(rasSent[rip], routerViewRef(refdec.Decode(frame)))
 			simrt.Settle()
-			got := w.ICMP6.FindRouter(rip)
-			if got.Addr.IP.IsValid() {
-				view := routerViewLib(got)
-				found := false
-				for _, v := range rasSent[rip] {
-					if v == view {
-						found = true
-					}
-				}
-				if !found {
-					key := "learned-router-differs-from-every-advertisement"
-					if len(rasSent[rip]) == 1 {
-						key = "learned-router-differs-from-its-only-advertisement"
-					}
-					e.violate("C14.router", key, fmt.Sprintf("FindRouter(%s) = %s; advertisements so far (reference decoder): %s", rip, view, strings.Join(rasSent[rip], " || ")))
-				}
-				e.probe("router_checked")
-			} else if len(raSeqs) == 1 && e.sc.Cfg.StallDen == 0 { // a stalled loop may not have processed it yet
-				e.violate("C14.router", "first-advertisement-not-learned", fmt.Sprintf("FindRouter(%s) is empty after the first router advertisement", rip))
+			first := len(raSeqs) == 1
+			// every router learned so far is looked at again, not only this one: what was recorded
+			// must stay what was advertised while the read loop reuses its buffer for later frames
+			rips := make([]netip.Addr, 0, len(rasSent))
+			for x := range rasSent {
+				rips = append(rips, x)
+			}
+			sort.Slice(rips, func(i, j int) bool { return rips[i].Less(rips[j]) })
+			for _, x := range rips {
+				checkRouter(x, x == rip && first)
 			}
 		case "ns":
 			// neighbour solicitations from a host (no reaction expected for link-local targets)
@@ -247,6 +261,16 @@ func runNDSpoof(e *exec) {
 	c.wg.Wait()
 	simrt.Sleep(int64(4 * time.Second))
 	simrt.Settle()
+	{
+		rips := make([]netip.Addr, 0, len(rasSent))
+		for x := range rasSent {
+			rips = append(rips, x)
+		}
+		sort.Slice(rips, func(i, j int) bool { return rips[i].Less(rips[j]) })
+		for _, x := range rips {
+			checkRouter(x, false)
+		}
+	}
 	closeInv, tClose := simrt.Seq(), now()
 	w.ICMP6.Close()
 	closeRet := simrt.Seq()
@@ -266,9 +290,10 @@ func runNDSpoof(e *exec) {
 	routers := map[netip.Addr]bool{u.RouterLLA: true, u.IP6(world.MC5, 0): true}
 
 	type naFrame struct {
-		seq int64
-		t   time.Duration
-		dst refdec.MAC
+		seq    int64
+		t      time.Duration
+		dst    refdec.MAC
+		target netip.Addr
 	}
 	var forged []naFrame
 	for _, o := range c.out {
@@ -280,7 +305,7 @@ func runNDSpoof(e *exec) {
 			e.violate("C14.unexpected", "unclassified-neighbour-advertisement", fmt.Sprintf("frame seq=%d: %s", o.Seq, f.Describe()))
 			continue
 		}
-		forged = append(forged, naFrame{seq: o.Seq, t: time.Duration(o.Time), dst: f.Dst})
+		forged = append(forged, naFrame{seq: o.Seq, t: time.Duration(o.Time), dst: f.Dst, target: f.ND.Target})
 		e.probe("forged_na")
 		if !f.ND.Override {
 			e.violate("C14.forged", "override-flag-clear", fmt.Sprintf("forged NA seq=%d without the override flag: %s", o.Seq, f.Describe()))
@@ -386,6 +411,79 @@ func runNDSpoof(e *exec) {
 					}
 				}
 				e.probe("stop_checked")
+			}
+		}
+		// "StartHunt is idempotent per MAC": a StartHunt for a MAC that is already hunted changes
+		// nothing. One spoof loop sends one forged NA per learned router, then sleeps at least two
+		// seconds unless a router advertisement wakes it. So within one hunt (first StartHunt to the
+		// next StopHunt) that saw a repeated StartHunt, two forged NAs for the same router less than
+		// two seconds apart, the second after the repeated call, need a router advertisement in
+		// between; otherwise a second loop (or an extra burst) was started by the repeated call.
+		if !stalls {
+			lastStop := time.Duration(-1 << 62)
+			for i := 0; i < len(evs); i++ {
+				if evs[i].kind == "stop" {
+					lastStop = evs[i].t
+				}
+				if evs[i].kind != "start" {
+					continue
+				}
+				// evs[i] opens a hunt; find its end and the repeated starts inside
+				end := len(evs)
+				var repeats []ev
+				for j := i + 1; j < len(evs); j++ {
+					if evs[j].kind == "stop" {
+						end = j
+						break
+					}
+					if evs[j].kind == "start" {
+						repeats = append(repeats, evs[j])
+					}
+				}
+				epoch := evs[i:end]
+				first := evs[i]
+				i = end - 1
+				if len(repeats) == 0 {
+					continue
+				}
+				// not judged: a hunt opened within a cycle of the previous StopHunt (the old loop may
+				// not have noticed yet), calls on this MAC that overlap in time, or a hunt cut by Close
+				if first.t-lastStop < 3*time.Second {
+					continue
+				}
+				clean := true
+				for _, a := range epoch {
+					for _, b := range evs {
+						if a.rec != nil && b.rec != nil && a.rec != b.rec && a.rec.Inv < b.rec.Ret && b.rec.Inv < a.rec.Ret {
+							clean = false
+						}
+					}
+				}
+				if !clean {
+					continue
+				}
+				e.probe("idempotence_checked")
+				lastNA := map[netip.Addr]naFrame{}
+				for _, f := range forged {
+					if f.dst != mac || f.seq < first.seq || (end < len(evs) && f.seq > evs[end].seq) || f.t > tClose {
+						continue
+					}
+					prev, seen := lastNA[f.target]
+					lastNA[f.target] = f
+					if !seen || f.t-prev.t >= 2*time.Second || f.seq < repeats[0].seq {
+						continue
+					}
+					woken := false
+					for _, in := range c.inbound() {
+						if in.Tag == "ra" && in.T >= prev.t-time.Millisecond && in.T <= f.t {
+							woken = true
+						}
+					}
+					if !woken {
+						e.violate("C14.idempotent", "second-forged-na-within-one-cycle-after-repeated-starthunt", fmt.Sprintf("%s is hunted since %v and StartHunt was called again at %v: forged NAs for router %s at %v and %v, %v apart, with no router advertisement in between (events: %s)", mac, first.t, repeats[0].t, f.target, prev.t, f.t, f.t-prev.t, desc()))
+						break
+					}
+				}
 			}
 		}
 		if !stalls {
